@@ -291,7 +291,9 @@ Definition identify_object (v : variant) (c : cfg) : res :=
       else
         match t with
         | TContent | TDirectory =>
-            (* path = obj.encode(...); if follow_symlinks and islink(obj): path = realpath(...) *)
+            (* path = os.fsencode(obj); content: if follow_symlinks and islink(obj): path = realpath(path);
+               directory: the path is walked as given (os.scandir follows a link given as top; exclusion
+               patterns stay rooted at the argument) - the older code resolved it for both, see v_realpath_str *)
             let follow := deref c && islink k in
             let p := if follow then PReal else PArg in
             let tag := if follow && v_realpath_str v then PStr else PBytes in
